@@ -393,21 +393,49 @@ def subst_to_spec(subst):
     return {k: to_spec(v) for k, v in subst.items()}
 
 
-def run_fuse(a, b):
+CONTAINER_KINDS = ("l", "t", "g")     # list, tuple, one-shot generator
+
+
+def split_op(op):
+    """'fuse/lg' -> ('fuse', 'lg'): how the first / second stream is handed over (default 'll')."""
+    base, _, kinds = op.partition("/")
+    return base, kinds or "ll"
+
+
+def join_op(base, kinds):
+    return base if kinds == "ll" else f"{base}/{kinds}"
+
+
+def wrap_stream(stmts, kind):
+    if kind == "l":
+        return list(stmts)
+    if kind == "t":
+        return tuple(stmts)
+    if kind == "g":
+        return (s for s in list(stmts))
+    raise ValueError(kind)
+
+
+def run_fuse(a, b, kinds="ll"):
     from pymbolic.imperative.transform import fuse_statement_streams_with_unique_ids
-    out, idmap = fuse_statement_streams_with_unique_ids(build_stream(a), build_stream(b))
+    out, idmap = fuse_statement_streams_with_unique_ids(
+        wrap_stream(build_stream(a), kinds[0]), wrap_stream(build_stream(b), kinds[1]))
     return observe_stream(out), dict(idmap)
 
 
-def run_daf(a, b, filt):
+def run_daf(a, b, filt, kinds="ll"):
     from pymbolic.imperative.transform import disambiguate_and_fuse
-    out, subst, idmap = disambiguate_and_fuse(build_stream(a), build_stream(b), filter_fn(filt))
+    out, subst, idmap = disambiguate_and_fuse(
+        wrap_stream(build_stream(a), kinds[0]), wrap_stream(build_stream(b), kinds[1]),
+        filter_fn(filt))
     return observe_stream(out), subst_to_spec(subst), dict(idmap)
 
 
-def run_disamb(a, b, filt):
+def run_disamb(a, b, filt, kinds="ll"):
     from pymbolic.imperative.transform import disambiguate_identifiers
-    bout, subst = disambiguate_identifiers(build_stream(a), build_stream(b), filter_fn(filt))
+    bout, subst = disambiguate_identifiers(
+        wrap_stream(build_stream(a), kinds[0]), wrap_stream(build_stream(b), kinds[1]),
+        filter_fn(filt))
     return observe_stream(bout), subst_to_spec(subst)
 
 
@@ -415,26 +443,27 @@ def case_fails(case):
     """case = (op, a, b, filt) with op in 'fuse', 'daf', 'disamb'.  -> list of (kind, detail).
     An exception of the real code is a failure of kind 'raises:<op>:<Class>'."""
     op, a, b, filt = case
+    base, kinds = split_op(op)
     try:
-        if op == "fuse":
-            out, idmap = run_fuse(a, b)
+        if base == "fuse":
+            out, idmap = run_fuse(a, b, kinds)
             return check_transform(a, b, out, idmap, None, None)
-        if op == "daf":
-            out, subst, idmap = run_daf(a, b, filt)
+        if base == "daf":
+            out, subst, idmap = run_daf(a, b, filt, kinds)
             return check_transform(a, b, out, idmap, filt, subst)
-        if op == "disamb":
-            bout, subst = run_disamb(a, b, filt)
+        if base == "disamb":
+            bout, subst = run_disamb(a, b, filt, kinds)
             return check_disamb_only(a, b, bout, filt, subst)
     except RecursionError:
         raise
     except Exception as e:  # noqa: BLE001
-        return [(f"raises:{op}:{type(e).__name__}", f"{type(e).__name__}: {e}"[:300])]
+        return [(f"raises:{base}:{type(e).__name__}", f"{type(e).__name__}: {e}"[:300])]
     raise ValueError(op)
 
 
 def show_case(case):
     op, a, b, filt = case
-    f = "" if op == "fuse" or filt == "all" else f", filter={filt}"
+    f = "" if split_op(op)[0] == "fuse" or filt == "all" else f", filter={filt}"
     return f"{op}(A={show_stream(a)}, B={show_stream(b)}{f})"
 
 # }}}
@@ -577,7 +606,13 @@ def case_simplifications(case):
         yield (op, a2, b, filt)
     for b2 in stream_simplifications(b):
         yield (op, a, b2, filt)
-    if op != "fuse" and filt != "all":
+    base_op, kinds = split_op(op)
+    if kinds != "ll":
+        yield (base_op, a, b, filt)
+        for k2 in (kinds[0] + "l", "l" + kinds[1]):
+            if k2 != kinds and k2 != "ll":
+                yield (join_op(base_op, k2), a, b, filt)
+    if base_op != "fuse" and filt != "all":
         yield (op, a, b, "all")
         base, style = _split_filter(filt)
         if style != "bool":
@@ -651,6 +686,8 @@ def _merge_name(stream, old, new):
             return None
         if e[0] == "Variable":
             return Var(new) if e[1][1] == old else e
+        if e[0] == "Lookup":
+            return ("Lookup", rv(e[1]), ("str", new) if e[2][1] == old else e[2])
         ch = spec_children(e)
         if not ch:
             return e
@@ -672,6 +709,13 @@ def rename_case(case, names=True, ids=True):
             if n not in vmap:
                 vmap[n] = f"v{len(vmap)}"
             return Var(vmap[n])
+        if e[0] == "Lookup":
+            # attribute names are renamed along with equally named identifiers, so that a
+            # coincidence of the two survives the canonical naming
+            n = e[2][1]
+            if n not in vmap:
+                vmap[n] = f"v{len(vmap)}"
+            return ("Lookup", rv(e[1]), ("str", vmap[n]))
         ch = spec_children(e)
         if not ch:
             return e
@@ -717,12 +761,13 @@ def shrink_case(case, kind, budget=400):
     def still(c):
         return any(k == kind for k, _ in case_fails(c))
 
-    if case[0] == "daf" and kind.startswith("disamb:"):
-        cand = ("disamb", *case[1:])
+    base_op, kinds = split_op(case[0])
+    if base_op == "daf" and kind.startswith("disamb:"):
+        cand = (join_op("disamb", kinds), *case[1:])
         if still(cand):
             case = cand
-    if case[0] == "daf" and kind.startswith("fuse:"):
-        cand = ("fuse", case[1], case[2], "all")
+    if base_op == "daf" and kind.startswith("fuse:"):
+        cand = (join_op("fuse", kinds), case[1], case[2], "all")
         if still(cand):
             case = cand
     changed = True
@@ -754,7 +799,7 @@ def shrink_case(case, kind, budget=400):
                 break
             if steps >= budget:
                 break
-    if case[0] == "disamb":
+    if split_op(case[0])[0] == "disamb":
         ren = {t[1]: f"b{i}" for i, t in enumerate(case[2])}
         cand = (case[0], case[1],
                 tuple((t[0], ren[t[1]], t[2], t[3], t[4], tuple(sorted(ren[d] for d in t[5])))
